@@ -71,6 +71,7 @@ def gen_query(rng, w, v_, d):
             f['forbidden_aggs'] = set(rng.sample(pool, rng.choice([1, 2])))
     elif ver >= 32 and rng.random() < 0.2:
         f['forbidden_aggs'] = set(rng.sample(w.aggs, rng.choice([1, 2])))
+    f['split_forbidden'] = rng.random() < 0.5
     if ver >= 18 and rng.random() < 0.5:
         pool = list(TRAITS)
         if rng.random() < 0.08:
@@ -115,6 +116,10 @@ def to_path(f, rng):
     fa = sorted(f['forbidden_aggs'])
     if len(fa) == 1:
         pairs.append(('member_of', '!' + fa[0]))
+    elif fa and f.get('split_forbidden'):
+        # (repeated negative values: one parameter per aggregate)
+        for a in fa:
+            pairs.append(('member_of', '!' + a))
     elif fa:
         pairs.append(('member_of', '!in:' + ','.join(fa)))
     singles = [next(iter(t)) for t in f['required'] if len(t) == 1]
